@@ -135,7 +135,7 @@ def c02(pid, tier, seed):
         fam("design_multi", W=4, H=14, Multi=True, MaxBars=3, Pre=2, Once=True, D=7 if q else 8, BarOps=("tick", "finish", "drop", "println", "set_message"),
             MpOps=("mp_println", "mp_clear"), MsgShapes=("a", "W1"), TextShapes=("T",), Tpls=("M",), Fins=("AndLeave",), M0="id", Base=0,
             model="MC_Multi", extra=dict(MaxLog=2, TextOnlyNewline=True, ZombieAccounting="repaired")),
-        fam("multi_zombie_cover", W=4, H=14, Multi=True, MaxBars=4, Pre=3, Once=True, Cover=True, D=13 if q else 15, BarOps=("finish", "drop", "tick"), MpOps=(),
+        fam("multi_zombie_cover", W=4, H=14, Multi=True, MaxBars=4, Pre=3, Once=True, Cover=True, D=11 if q else 15, BarOps=("finish", "drop", "tick"), MpOps=(),
             Tpls=("M",), Fins=("AndLeave",), M0="id", shards=12),
         fam("multi_limited", W=4, H=12, Multi=True, MaxBars=2, D=5 if q else 6, BarOps=("burst", "set_message", "finish", "drop", "tick"), MpOps=(),
             MsgShapes=("a",), Tpls=("M",), Fins=("AndLeave",), Hz=2, DTs=(0,), M0="id", shards=12),
@@ -175,7 +175,7 @@ def c04(pid, tier, seed):
             Tpls=("MnC", "M"), Fins=("AndLeave", "AndClear", "Abandon", "WithMessage", "AbandonWithMessage"), M0="id"),
         fam("fin_multi_orders", W=4, H=12, Multi=True, MaxBars=3, D=6 if q else 7, BarOps=("finish", "drop"), MpOps=(), Tpls=("MC",), Fins=("AndLeave", "AndClear"),
             M0="id", shards=12),
-        fam("handles", W=6, H=8, D=5 if q else 6, BarOps=("clone", "drop_one", "drop", "downgrade", "upgrade", "tick", "finish", "reset_elapsed", "is_hidden"),
+        fam("handles", W=6, H=8, D=4 if q else 6, BarOps=("clone", "drop_one", "drop", "downgrade", "upgrade", "tick", "finish", "reset_elapsed", "is_hidden"),
             Tpls=("MnC",), Fins=("AndLeave", "AndClear"), DTs=(0, 1000), M0="id"),
         fam("fin_multi_wrapped", W=4, H=14, Multi=True, MaxBars=3, Pre=2, Once=True, Cover=True, D=9 if q else 11, BarOps=("finish", "drop", "tick"), MpOps=(),
             Tpls=("M",), Fins=("AndLeave",), M0="idw", shards=12),
@@ -242,8 +242,10 @@ def c18(pid, tier, seed):
     fams = [
         fam("faults_single", W=6, H=5, D=4 if q else 5, BarOps=("tick", "set_message", "println", "suspend", "finish", "finish_and_clear", "set_tab_width", "reset", "drop", "inc"),
             MsgShapes=("a", "W1"), TextShapes=("T",), Tpls=("MnC",), Fins=("AndLeave",), Faults=(1, 2, 3, 5, 8), M0="id"),
-        fam("faults_multi", W=6, H=8, Multi=True, MaxBars=2, Pre=2, D=6 if q else 7, BarOps=("tick", "set_message", "println", "suspend", "finish", "drop", "set_tab_width"),
+        fam("faults_multi", W=6, H=8, Multi=True, MaxBars=2, Pre=2, D=5 if q else 6, BarOps=("tick", "set_message", "println", "suspend", "finish", "drop", "set_tab_width"),
             MpOps=("mp_println", "mp_clear", "mp_suspend"), MsgShapes=("a",), TextShapes=("T",), Tpls=("M",), Fins=("AndLeave",), Faults=(1, 2, 4, 7), M0="id", shards=12),
+        fam("faults_multi_zombies", W=6, H=8, Multi=True, MaxBars=2, Pre=2, Once=True, D=6 if q else 7, BarOps=("println", "finish", "drop"),
+            MpOps=("mp_println", "mp_clear"), TextShapes=("T",), Tpls=("M",), Fins=("AndLeave",), Faults=(1, 2, 4), M0="id", shards=12),
     ]
     return screen_check(pid, tier, seed, fams,
                         "fault enumeration: every history of the family x every k in Faults x {once, sticky}: the k-th terminal call after the fail_at point returns an io::Error; "
@@ -432,7 +434,7 @@ def c05(pid, tier, seed):
             ops.append({"op": "inc" if kind == "pos" else "tick", "b": 1, "n": 1, "dts": ns // 1000000000, "dt": (ns % 1000000000) // 1000, "dtn": ns % 1000})
         return {"cfg": cfg, "ops": ops}
 
-    rates = [1, 3, 20, 60, 250, 255] if q else list(range(1, 256))
+    rates = [1, 20, 60, 250, 255] if q else list(range(1, 256))
     plan = []
     for R in rates:
         sel = cover20 if (q and R in (20, 255)) or not q else cover20[::7]
